@@ -441,7 +441,9 @@ def gen_clear_in_grow(rng, kind, binary, refill=400):
     if not cands:
         return None
     cut = rng.choice(cands[:40])
-    ops = h["ops"][:cut + 1]
+    # the probe lookups of the prefix ran on the still empty map (no state, no fastrand): leave them out of the history
+    npre = 1 + len(h["_uniq"])
+    ops = [h["ops"][0]] + h["ops"][npre:cut + 1]
     ops.append(("clr", None, None, None))
     ops.append(("len", None, None, None))
     uniq = h["_uniq"]
@@ -903,7 +905,7 @@ def run_e2e(ctx, rng, defect_clear, nops, small=False, gcflags=None):
     return stats
 
 
-def minimise(binary, hist, tag="general", limit=40):
+def minimise(binary, hist, tag="general", limit=80):
     """shrink a spec-violating history: shortest prefix, then drop chunks of ops (delta debugging, bounded)"""
     def fails(h):
         rl, pre = real_lines_of(h)
